@@ -234,7 +234,7 @@ impl Oracle {
     pub fn sig_hex(&mut self, secret: &[u8], date8: &[u8], region: &[u8], service: &[u8], sts: &[u8]) -> Vec<u8> {
         let key = own_signing_key(secret, date8, region, service);
         let out = hex(&hmac_sha256(&key, sts)).into_bytes();
-        self.sig.push(json!({"sts": jbytes(sts), "out": jbytes(&out), "kdate": jbytes(date8),
+        self.sig.push(json!({"sts": jbytes(sts), "out": jbytes(&out), "secret": jbytes(secret), "kdate": jbytes(date8),
                              "region": jbytes(region), "service": jbytes(service)}));
         out
     }
@@ -417,7 +417,10 @@ pub fn end_event(out: Option<Result<Result<(http::request::Parts, Bytes, scratch
         None => blank_result(&mut m, "stuck", "future never completed"),
         Some(Err(p)) => blank_result(&mut m, "panic", &p),
         Some(Ok(Err(e))) => match e.downcast::<SignatureError>() {
-            Ok(se) => err_fields(&mut m, &se),
+            Ok(se) => {
+                err_fields(&mut m, &se);
+                m.insert("debug".into(), json!(format!("{:?}", se)));
+            }
             Err(other) => {
                 blank_result(&mut m, "err", &other.to_string());
                 m.insert("kind".into(), json!("NotASignatureError"));
@@ -575,9 +578,10 @@ fn run_staged<S: SignedHeaderRequirements>(
         }
         Ok(Ok((c, _p, _b))) => c,
     };
+    let render_canon = if crate::leak::active() { format!("{:?}", creq) } else { String::new() };
     evs.push(stage_ok(
         "StageCanon",
-        json!({"cpath": jbytes(creq.canonical_path().as_bytes()),
+        json!({"render": render_canon, "cpath": jbytes(creq.canonical_path().as_bytes()),
                "cquery": jbytes(creq.canonical_query_string().as_bytes()),
                "bodyhash": jbytes(creq.body_sha256().as_bytes())}),
     ));
@@ -594,9 +598,10 @@ fn run_staged<S: SignedHeaderRequirements>(
         Ok(Ok(ap)) => ap,
     };
     let signed = ap.signed_headers.clone();
+    let render_params = if crate::leak::active() { format!("{:?}", ap) } else { String::new() };
     evs.push(stage_ok(
         "StageParams",
-        json!({"cred": jbytes(ap.builder.get_credential().unwrap_or("").as_bytes()),
+        json!({"render": render_params, "cred": jbytes(ap.builder.get_credential().unwrap_or("").as_bytes()),
                "sig": jbytes(ap.builder.get_signature().unwrap_or("").as_bytes()),
                "hasToken": ap.builder.get_session_token().is_some(),
                "token": jbytes(ap.builder.get_session_token().unwrap_or("").as_bytes()),
@@ -623,7 +628,7 @@ fn run_staged<S: SignedHeaderRequirements>(
         }
     };
     oracle.sha_hex(&creq_bytes);
-    evs.push(stage_ok("StageAuth", json!({"inst": instant_json(auth.request_timestamp()), "creq": jbytes(&creq_bytes)})));
+    evs.push(stage_ok("StageAuth", json!({"render": if crate::leak::active() { format!("{:?}", auth) } else { String::new() }, "inst": instant_json(auth.request_timestamp()), "creq": jbytes(&creq_bytes)})));
     match guarded(|| auth.prevalidate(&region, &service, now, Duration::minutes(15))) {
         Err(p) => {
             evs.push(stage_err("StagePre", Err(&p), json!({})));
@@ -675,6 +680,10 @@ pub fn run(case: &Value) -> Vec<Value> {
     let reqs = build_reqs(&cfg);
     let events: Events = Arc::new(Mutex::new(Vec::new()));
     let req2 = built.request().unwrap();
+    let leak_mode = get_bool(case, "leak");
+    if leak_mode {
+        crate::leak::start();
+    }
     let (end, staged) = match &reqs {
         Reqs::Slice(a, i, p) => {
             let r = SliceSignedHeaderRequirements::new(a, i, p);
@@ -686,6 +695,66 @@ pub fn run(case: &Value) -> Vec<Value> {
             (run_e2e(req, &cfg, &script, v, events.clone()), st)
         }
     };
+    let records = if leak_mode { crate::leak::stop() } else { Vec::new() };
+    let mut leak_events: Vec<Value> = Vec::new();
+    if leak_mode {
+        // everything secret in this case: the provider's secret, every key derived from it for the request's
+        // (and the server's) date, and the signature the server computes for the request
+        let region = get_bytes(&cfg, "region");
+        let service = get_bytes(&cfg, "service");
+        let mut needles = vec![crate::leak::needle("secret", &script.secret, false)];
+        let mut dates: Vec<String> = vec![now_of(&cfg).date_naive().format("%Y%m%d").to_string()];
+        for e in oracle.sig.iter() {
+            let d = String::from_utf8_lossy(&bytes_of(&e["kdate"])).to_string();
+            if !dates.contains(&d) {
+                dates.push(d);
+            }
+        }
+        for d in &dates {
+            let mut k0 = b"AWS4".to_vec();
+            k0.extend_from_slice(&script.secret);
+            let k1 = hmac_sha256(&k0, d.as_bytes());
+            let k2 = hmac_sha256(&k1, &region);
+            let k3 = hmac_sha256(&k2, &service);
+            let k4 = hmac_sha256(&k3, b"aws4_request");
+            needles.push(crate::leak::needle("kDate", &k1, false));
+            needles.push(crate::leak::needle("kRegion", &k2, false));
+            needles.push(crate::leak::needle("kService", &k3, false));
+            needles.push(crate::leak::needle("kSigning", &k4, false));
+        }
+        // the correct signature under the provider's key, as evaluated for the library's own string-to-sign
+        for e in oracle.sig.iter() {
+            if bytes_of(&e["secret"]) == script.secret {
+                let hexsig = bytes_of(&e["out"]);
+                let mut n = crate::leak::needle("expectedSig", &[], false);
+                n.forms.push(hexsig.clone());
+                n.forms.push(hexsig.to_ascii_uppercase());
+                needles.push(n);
+            }
+        }
+        let refused = end.get("res").and_then(|v| v.as_str()) != Some("ok");
+        for (level, msg) in &records {
+            leak_events.push(json!({"ev": "Log", "level": level, "refused": refused,
+                                    "taints": crate::leak::taints(msg.as_bytes(), &needles)}));
+        }
+        let msg = get_str(&end, "msg").to_string();
+        leak_events.push(json!({"ev": "Render", "what": "error.display", "refused": refused, "res": "ok",
+                                "taints": crate::leak::taints(msg.as_bytes(), &needles)}));
+        let dbg = get_str(&end, "debug").to_string();
+        leak_events.push(json!({"ev": "Render", "what": "error.debug", "refused": refused, "res": "ok",
+                                "taints": crate::leak::taints(dbg.as_bytes(), &needles)}));
+        for s in staged.iter() {
+            if let Some(r) = s.get("render").and_then(|v| v.as_str()).filter(|r| !r.is_empty()) {
+                leak_events.push(json!({"ev": "Render", "what": format!("{}.debug", get_str(s, "ev")), "refused": refused,
+                                        "res": "ok", "taints": crate::leak::taints(r.as_bytes(), &needles)}));
+            }
+        }
+    }
+    let mut end = end;
+    let pd = proj_digest(&end, &prov_snapshot(&events));
+    if let Some(o) = end.as_object_mut() {
+        o.insert("proj".into(), json!(pd));
+    }
     let mut out = Vec::new();
     let mut cfgj = cfg.clone();
     if let Some(o) = cfgj.as_object_mut() {
@@ -699,10 +768,131 @@ pub fn run(case: &Value) -> Vec<Value> {
         o.insert("s3".into(), json!(get_bool(&cfg, "s3")));
         o.insert("fold".into(), json!(get_bool(&cfg, "fold")));
     }
+    let prov_events: Vec<Value> = events.lock().unwrap().drain(..).collect();
+    // nev: how many events of this case follow the Begin line (bounds the validator's look-ahead)
     out.push(json!({"ev": "Begin", "id": id, "env": env, "cfg": cfgj, "script": script.to_json(),
-                    "oracle": {"sha": oracle.sha, "sig": oracle.sig}}));
-    out.extend(events.lock().unwrap().drain(..));
+                    "oracle": {"sha": oracle.sha, "sig": oracle.sig},
+                    "nev": prov_events.len() + 1 + staged.len() + leak_events.len()}));
+    out.extend(prov_events);
     out.push(end);
     out.extend(staged);
+    out.extend(leak_events);
     out
+}
+
+/// End-to-end run of an already built request with an always-ready provider and no requirements
+/// (used by size probes where the interesting outcome is decided before authentication).
+pub fn run_plain(req: http::Request<Bytes>, cfg: &Value) -> Value {
+    let script = Script {
+        ready_in: 0,
+        ready: "ok".into(),
+        pend_in: 0,
+        answer: "ok".into(),
+        err_kind: "InvalidClientTokenId".into(),
+        principal: 1,
+        secret: b"wJalrXUtnFEMI/K7MDENG+bPxRfiCYEXAMPLEKEY".to_vec(),
+    };
+    let cfgb = json!({"region": jbytes(get_str(cfg, "region").as_bytes()), "service": jbytes(get_str(cfg, "service").as_bytes()),
+                      "now": cfg.get("now").cloned().unwrap_or(json!([735840, 45360, 0])),
+                      "s3": get_bool(cfg, "s3"), "fold": get_bool(cfg, "fold")});
+    let events: Events = Arc::new(Mutex::new(Vec::new()));
+    let none: [Cow<'static, str>; 0] = [];
+    let r = SliceSignedHeaderRequirements::new(&none, &none, &none);
+    run_e2e(req, &cfgb, &script, &r, events)
+}
+
+fn prov_snapshot(events: &Events) -> Vec<Value> {
+    events.lock().unwrap().clone()
+}
+
+/// C18: the caller-visible outcome (result kind/code/status, returned request, principal, provider
+/// interactions) without free-text messages, as a digest.
+pub fn proj_digest(end: &Value, prov: &[Value]) -> String {
+    let mut m = Map::new();
+    for k in ["res", "kind", "code", "status", "principal", "session", "ret"] {
+        m.insert(k.into(), end.get(k).cloned().unwrap_or(Value::Null));
+    }
+    m.insert("prov".into(), Value::Array(prov.to_vec()));
+    hex(&sha256(serde_json::to_string(&Value::Object(m)).unwrap().as_bytes()))
+}
+
+/// End-to-end only (no staged run, no oracle): used by the concurrency / multi-process drivers.
+pub fn run_e2e_only(case: &Value) -> Option<(Value, String)> {
+    let cfg = case.get("cfg").cloned().unwrap_or(json!({}));
+    let script = Script::from_json(case.get("script").unwrap_or(&json!({})));
+    let mut oracle = Oracle {
+        sha: Vec::new(),
+        sig: Vec::new(),
+    };
+    let built = build(case, &mut oracle);
+    let req = built.request().ok()?;
+    let reqs = build_reqs(&cfg);
+    let events: Events = Arc::new(Mutex::new(Vec::new()));
+    let end = match &reqs {
+        Reqs::Slice(a, i, p) => {
+            let r = SliceSignedHeaderRequirements::new(a, i, p);
+            run_e2e(req, &cfg, &script, &r, events.clone())
+        }
+        Reqs::Vecr(v) => run_e2e(req, &cfg, &script, v, events.clone()),
+    };
+    let d = proj_digest(&end, &prov_snapshot(&events));
+    Some((end, d))
+}
+
+/// `conform threads <cases> <out> <nthreads> <rounds> <seed>`: N threads released together validate the
+/// shuffled corpus; the first touches of the library's lazily initialised globals are raced.
+pub fn threads_main(cases_path: &str, out_path: &str, nthreads: usize, rounds: usize, seed: u64) {
+    use std::io::{BufRead, Write};
+    let f = std::fs::File::open(cases_path).expect("open cases");
+    let cases: Vec<Value> = std::io::BufReader::new(f)
+        .lines()
+        .filter_map(|l| l.ok())
+        .filter(|l| !l.trim().is_empty())
+        .map(|l| serde_json::from_str(&l).expect("case"))
+        .collect();
+    let cases = Arc::new(cases);
+    let results: Arc<Mutex<Vec<Value>>> = Arc::new(Mutex::new(Vec::new()));
+    let pid = std::process::id();
+    for round in 0..rounds {
+        let barrier = Arc::new(std::sync::Barrier::new(nthreads));
+        let mut hs = Vec::new();
+        for t in 0..nthreads {
+            let cases = cases.clone();
+            let results = results.clone();
+            let barrier = barrier.clone();
+            hs.push(std::thread::spawn(move || {
+                crate::util::quiet_panics();
+                let mut rng = Rng::new(seed ^ ((round as u64) << 32) ^ (t as u64 * 7919) ^ (pid as u64));
+                let mut order: Vec<usize> = (0..cases.len()).collect();
+                for i in (1..order.len()).rev() {
+                    let j = rng.below(i + 1);
+                    order.swap(i, j);
+                }
+                let mut local = Vec::with_capacity(order.len());
+                barrier.wait();
+                for (seq, ci) in order.iter().enumerate() {
+                    let c = &cases[*ci];
+                    let r = guarded(|| run_e2e_only(c));
+                    let (res, proj) = match r {
+                        Ok(Some((end, d))) => (get_str(&end, "res").to_string(), d),
+                        Ok(None) => ("inadm".to_string(), "inadm".to_string()),
+                        Err(p) => ("panic".to_string(), format!("panic:{p}")),
+                    };
+                    local.push(json!({"op": "det", "id": c.get("id").cloned().unwrap_or(json!(0)),
+                                      "who": format!("p{}r{}t{}#{}", pid, round, t, seq), "res": res, "proj": proj}));
+                }
+                results.lock().unwrap().extend(local);
+            }));
+        }
+        for h in hs {
+            let _ = h.join();
+        }
+    }
+    let mut w = std::io::BufWriter::new(std::fs::File::create(out_path).expect("create"));
+    for v in results.lock().unwrap().iter() {
+        serde_json::to_writer(&mut w, v).unwrap();
+        w.write_all(b"\n").unwrap();
+    }
+    w.flush().unwrap();
+    println!("threads: {} observations", results.lock().unwrap().len());
 }
